@@ -829,6 +829,8 @@ static void script_vnacal_auto_ue14(Script &S) {
     S.add("vnacal_new_set_et_tolerance", true, [](World &w) { RET_INT0(w, vnacal_new_set_et_tolerance(w.vn[0], 1e-7)); });
     S.add("vnacal_new_set_iteration_limit", true, [](World &w) { RET_INT0(w, vnacal_new_set_iteration_limit(w.vn[0], 50)); });
     S.add("vnacal_new_solve", true, [](World &w) { RET_INT0(w, vnacal_new_solve(w.vn[0])); }, [](World &w) { obs_par(w, 2, 2e9); });
+    // solve again without add_calibration in between: replaces the previous calibration and the solved values of the unknown
+    S.add("vnacal_new_solve", true, [](World &w) { RET_INT0(w, vnacal_new_solve(w.vn[0])); }, [](World &w) { obs_par(w, 2, 2e9); });
     VC_ADDCAL(0, 0, "ue14");
     VC_SAVE(0);
     S.add("vnadata_alloc", true, [](World &w) { RET_PTR(w, vnadata_alloc(errlog_fn, &w.log), w.vd[0]); });
@@ -1077,6 +1079,170 @@ static void script_gen_cal_family(Script &S) {
     S.generate = script_gen_cal;
 }
 
+// ======================================================= "replace X by Y" scripts
+// Type-changing overwrites free the old node and allocate its replacement: exactly where a failed
+// allocation can leave a dangling or half-replaced slot.  Every direction (null/scalar/map/list ->
+// scalar/map/list/null), at the root, as a map value and as a list cell, through every modifying
+// entry point.
+#define PSUB(i, ...)  S.add("vnaproperty_set_subtree", false, [](World &w) { errno = 0; vnaproperty_t **t = vnaproperty_set_subtree(&w.prop[i], __VA_ARGS__); w.err = errno; w.rc_bad = false; return t == nullptr; }, OBS_PROP(i))
+#define PCOPY(dst, src) S.add("vnaproperty_copy", false, [](World &w) { RET_INT0(w, vnaproperty_copy(&w.prop[dst], w.prop[src])); }, OBS_PROP(dst))
+#define PIMPORT(i, text) S.add("vnaproperty_import_yaml_from_string", false, [](World &w) { RET_INT0(w, vnaproperty_import_yaml_from_string(&w.prop[i], text, errlog_fn, &w.log)); }, OBS_PROP(i))
+
+// --- S17: vnaproperty_set / set_subtree / delete: retyping at the root, of a map value, of a list cell
+static void script_vnaproperty_retype(Script &S) {
+    S.name = "vnaproperty_retype";
+    // root
+    PSET(0, ".=root scalar");          // null   -> scalar
+    PSET(0, "[0]=a");                  // scalar -> list  (element)
+    PSET(0, "k=v");                    // list   -> map
+    PSET(0, "[+]=x");                  // map    -> list  (append)
+    PSET(0, ".=s");                    // list   -> scalar
+    PSET(0, "m.k=1");                  // scalar -> map
+    PSET(0, "[0+]=ins");               // map    -> list  (insert)
+    PSUB(0, "{}");                     // list   -> map   (abstract map)
+    PSET(0, "k2=v2");
+    PSUB(0, "[]");                     // map    -> list  (abstract list)
+    PSET(0, ".#");                     // list   -> null
+    PSUB(0, "[]");                     // null   -> list
+    PSET(0, ".=s2");                   // list   -> scalar
+    PSUB(0, "[]");                     // scalar -> list  (abstract list)
+    PDEL(0, ".");                      // list   -> null
+    PSUB(0, "{}");                     // null   -> map
+    PSET(0, ".=s3");                   // map    -> scalar
+    PSUB(0, "[2]");                    // scalar -> list  (set_subtree element)
+    PSUB(0, "sub");                    // list   -> map   (set_subtree key)
+    // map value "v"
+    PSET(0, "v=scalar");               // null   -> scalar
+    PSET(0, "v[0]=1");                 // scalar -> list
+    PSET(0, "v.k=1");                  // list   -> map
+    PSET(0, "v[+]=2");                 // map    -> list  (append)
+    PSET(0, "v=s");                    // list   -> scalar
+    PSET(0, "v.a.b=1");                // scalar -> map (two levels)
+    PSET(0, "v[0+]=z");                // map    -> list  (insert)
+    PSET(0, "v#");                     // list   -> null
+    PSET(0, "v[2]=sparse");            // null   -> list with leading nulls
+    PSET(0, "v#");
+    PSET(0, "v.k=1");                  // null   -> map
+    PSUB(0, "v[]");                    // map    -> list  (abstract)
+    PSUB(0, "v{}");                    // list   -> map   (abstract)
+    PSUB(0, "v[1]");                   // map    -> list  (set_subtree element)
+    PSUB(0, "v.key");                  // list   -> map   (set_subtree key)
+    PSET(0, "v=s");                    // map    -> scalar
+    PSUB(0, "v[]");                    // scalar -> list  (abstract)
+    PSET(0, "v=s");
+    PSUB(0, "v{}");                    // scalar -> map   (abstract)
+    PDEL(0, "v.");                     // map    -> null, key kept
+    PSET(0, "v[+]=again");             // null   -> list  (append)
+    PDEL(0, "v");                      // entry removed
+    // list cell "l[1]"
+    PSET(0, "l[1]=cell");              // creates l = [~, cell]
+    PSET(0, "l[1][1]=x");              // scalar cell -> list
+    PSET(0, "l[1].k=1");               // list cell   -> map
+    PSET(0, "l[1][+]=y");              // map cell    -> list
+    PSET(0, "l[1]=s");                 // list cell   -> scalar
+    PSET(0, "l[1].a=1");               // scalar cell -> map
+    PSUB(0, "l[1][]");                 // map cell    -> list (abstract)
+    PSUB(0, "l[1]{}");                 // list cell   -> map  (abstract)
+    PSET(0, "l[1]#");                  // map cell    -> null
+    PSET(0, "l[1][0]=n");              // null cell   -> list
+    PDEL(0, "l[1].");                  // list cell   -> null, position kept
+    PSET(0, "l[1].k.j=n");             // null cell   -> map
+    PSET(0, "l[0+][0]=front");         // insert a new list cell in front that is itself a list
+    PDEL(0, "l[0]");                   // removes it, shifting the map cell down
+    PSET(0, "l=flat");                 // whole list  -> scalar
+    PSET(0, "l[0].deep[1].er=1");      // scalar -> list -> map -> list -> map in one call
+    PDEL(0, ".");
+}
+
+// --- S18: vnaproperty_copy and vnaproperty_import_yaml_from_string onto non-empty roots of another type
+static void script_vnaproperty_replace_root(Script &S) {
+    S.name = "vnaproperty_replace_root";
+    PSET(0, "a.b[1]=map-rooted");      // prop0: map
+    PSET(1, "[1][0]=list-rooted");     // prop1: list
+    PSET(2, ".=scalar-rooted");        // prop2: scalar
+    PCOPY(1, 0);                       // list   <- map
+    PCOPY(2, 1);                       // scalar <- map
+    PSET(1, "[2].x=list again");       // prop1: map -> list
+    PCOPY(0, 1);                       // map    <- list
+    PSET(2, ".=scalar again");
+    PCOPY(1, 2);                       // list   <- scalar
+    PCOPY(0, 2);                       // list   <- scalar
+    PSET(0, "[0]=l");                  // prop0: scalar -> list
+    PCOPY(2, 0);                       // scalar <- list
+    S.add("vnaproperty_copy", false, [](World &w) { RET_INT0(w, vnaproperty_copy(&w.prop[2], nullptr)); }, OBS_PROP(2));   // list <- null
+    PCOPY(2, 0);                       // null   <- list
+    // import replaces the existing content
+    PIMPORT(0, "{k: [1, {m: n}], s: t}\n");       // list   <- map
+    PIMPORT(0, "[a, [b, c], {d: e}]\n");          // map    <- list
+    PIMPORT(0, "just a scalar\n");                // list   <- scalar
+    PIMPORT(0, "{x: y}\n");                       // scalar <- map
+    PIMPORT(0, "~\n");                            // map    <- null
+    PIMPORT(0, "[1]\n");                          // null   <- list
+    PIMPORT(1, "- {deep: [1, 2]}\n- plain\n");    // scalar <- list
+    PIMPORT(2, "text\n");                         // list   <- scalar
+    PDEL(2, ".");
+    PDEL(1, ".");
+    PDEL(0, ".");
+}
+
+// --- S19: the same retyping through vnacal_property_set / set_subtree / delete, on the global root
+//     and on the root of a calibration; the result is saved and loaded
+static void script_vnacal_property_retype(Script &S) {
+    S.name = "vnacal_property_retype";
+    static Vna2 vna;
+    auto refl = [](cd g) { MeasP mp = std::make_shared<Meas>(1, 1, 2); for (int f = 0; f < 2; f++) { cd s[2][2] = {{g, 0}, {0, 0}}, m[2][2]; vna.measure(s, f, m); mp->at(0, 0, f) = cx(m[0][0]); } return mp; };
+    static MeasP m_s = refl(-1), m_o = refl(1), m_m = refl(0);
+    static const dvec f2 = {1e9, 2e9};
+    VC_CREATE(0);
+    VN_ALLOC(0, VNACAL_T8, 1, 1, 2);
+    VN_SETF(0, f2);
+    S.add("vnacal_new_add_single_reflect_m", true, [](World &w) { RET_INT0(w, vnacal_new_add_single_reflect_m(w.vn[0], m_s->ptr(), 1, 1, VNACAL_SHORT, 1)); });
+    S.add("vnacal_new_add_single_reflect_m", true, [](World &w) { RET_INT0(w, vnacal_new_add_single_reflect_m(w.vn[0], m_o->ptr(), 1, 1, VNACAL_OPEN, 1)); });
+    S.add("vnacal_new_add_single_reflect_m", true, [](World &w) { RET_INT0(w, vnacal_new_add_single_reflect_m(w.vn[0], m_m->ptr(), 1, 1, VNACAL_MATCH, 1)); });
+    VN_SOLVE(0);
+    VC_ADDCAL(0, 0, "cal");
+    for (int which = 0; which < 2; which++) {      // 0: global root (ci = -1), 1: the calibration's root
+#define CI(w) (which == 0 ? -1 : (w).ci[0])
+#define VPSET(...) S.add("vnacal_property_set", false, [which](World &w) { RET_INT0(w, vnacal_property_set(w.vc[0], CI(w), __VA_ARGS__)); }, OBS_VC(0))
+#define VPSUB(...) S.add("vnacal_property_set_subtree", false, [which](World &w) { errno = 0; vnaproperty_t **t = vnacal_property_set_subtree(w.vc[0], CI(w), __VA_ARGS__); w.err = errno; w.rc_bad = false; return t == nullptr; }, OBS_VC(0))
+#define VPDEL(...) S.add("vnacal_property_delete", false, [which](World &w) { RET_INT0(w, vnacal_property_delete(w.vc[0], CI(w), __VA_ARGS__)); }, OBS_VC(0))
+        VPSET(".=root scalar");        // null   -> scalar
+        VPSET("[1]=a");                // scalar -> list
+        VPSET("k=v");                  // list   -> map
+        VPSUB("[]");                   // map    -> list
+        VPSUB("{}");                   // list   -> map
+        VPSET("x=1");
+        VPSET("x[0]=a");               // scalar value -> list
+        VPSET("x.k=v");                // list value   -> map
+        VPSET("x[+]=1");               // map value    -> list
+        VPSUB("x{}");                  // list value   -> map
+        VPSUB("x[]");                  // map value    -> list
+        VPSET("x[0]=cell");
+        VPSET("x[0][+]=c");            // scalar cell  -> list
+        VPSET("x[0].k=c");             // list cell    -> map
+        VPSUB("x[0][]");               // map cell     -> list
+        VPDEL("x[0].");                // list cell    -> null
+        VPSET("x=scalar");             // list value   -> scalar
+        VPDEL("x.");                   // scalar value -> null
+        VPSET("x[+]=again");           // null value   -> list
+        VPDEL("x");
+        VPSET("keep.list[1]=kept");
+#undef VPSET
+#undef VPSUB
+#undef VPDEL
+#undef CI
+    }
+    VC_SAVE(0);
+    S.add("vnacal_property_delete", false, [](World &w) { RET_INT0(w, vnacal_property_delete(w.vc[0], -1, ".")); }, OBS_VC(0));
+    S.add("vnacal_property_set", false, [](World &w) { RET_INT0(w, vnacal_property_set(w.vc[0], w.ci[0], "[0]=calibration root becomes a list")); }, OBS_VC(0));   // map root -> list
+    VN_FREE(0);
+    VC_FREE(0);
+    VC_LOAD(1);
+    S.add("vnacal_property_set", false, [](World &w) { RET_INT0(w, vnacal_property_set(w.vc[1], 0, "keep[0]=loaded map value becomes a list")); }, OBS_VC(1));
+    S.add("vnacal_property_set_subtree", false, [](World &w) { errno = 0; vnaproperty_t **t = vnacal_property_set_subtree(w.vc[1], -1, "[]"); w.err = errno; w.rc_bad = false; return t == nullptr; }, OBS_VC(1));
+    VC_FREE(1);
+}
+
 //@@MORE_SCRIPTS@@
 
 static void build_scripts() {
@@ -1089,6 +1255,7 @@ static void build_scripts() {
         script_vnacal_solt_e12, script_vnacal_t8_ab, script_vnacal_trl,
         script_vnacal_auto_ue14, script_vnacal_weighted, script_vnacal_correlated, script_vnacal_multi, script_vnacal_t16,
         script_gen_cal_family,
+        script_vnaproperty_retype, script_vnaproperty_replace_root, script_vnacal_property_retype,
         //@@MORE_BUILDERS@@
     };
     for (builder b : all) { g_scripts.emplace_back(); b(g_scripts.back()); }
